@@ -16,7 +16,7 @@ from ..ref import stv as R
 from . import common
 
 ID = "C07"
-RUNS = {"quick": 3000, "thorough": 150000}
+RUNS = {"quick": 6000, "thorough": 150000}
 TIME = {"quick": 75, "thorough": 1500}
 RULE_TEXT = (
     "case = seeded profile with 1-2 planted solid coalitions (members ranked in varying orders, weights around multiples of the quota) + background ballots, "
@@ -33,8 +33,50 @@ case_size = common.case_size
 shrink_steps = common.rule_case_steps
 
 
+def partition(rng, total, parts):
+    """random composition of `total` into `parts` positive integers (fewer parts if total is small)"""
+    parts = max(1, min(parts, total))
+    cuts = sorted(rng.sample(range(1, total), parts - 1)) if parts > 1 else []
+    return [b - a for a, b in zip([0] + cuts, cuts + [total])]
+
+
+def generate_tight(rng, run_seed):
+    """a coalition sitting *exactly* on k quotas, its support spread over several piles in different orders:
+    the configuration in which any loss of transferred weight (rounding, truncation, a dropped ballot) costs a seat"""
+    n = rng.randint(3, 6)
+    names, fam = G.gen_names(rng, n)
+    m = rng.randint(1, n - 1)
+    q = rng.randint(2, 12)
+    k = rng.randint(1, m)
+    s = rng.randint(k, n - 1)
+    S = rng.sample(names, s)
+    others = [c for c in names if c not in S]
+    lo, hi = (q - 1) * (m + 1), q * (m + 1) - 1
+    WS = k * q
+    N = rng.randint(max(lo, WS), hi)
+    ballots = []
+    for w in partition(rng, WS, rng.randint(2, 6)):
+        order = rng.sample(S, s)
+        tail = rng.sample(others, rng.randint(0, len(others)))
+        ballots.append(([[c] for c in order + tail], Fraction(w)))
+    rest = N - WS
+    if rest > 0:
+        for w in partition(rng, rest, rng.randint(1, 4)):
+            first = rng.choice(others)
+            tail = rng.sample([c for c in names if c != first], rng.randint(0, n - 1))
+            ballots.append(([[first]] + [[c] for c in tail], Fraction(w)))
+    rng.shuffle(ballots)
+    jp = {"candidates": names, "ballots": [{"r": r, "w": canon.fs(w)} for r, w in ballots]}
+    transfer = G.wchoice(rng, [("fractional", 4), ("random", 1)])
+    kw = {"m": m, "quota": "droop", "simultaneous": rng.random() < 0.5, "tiebreak": rng.choice(["random", "borda", "first_place"]), "transfer": transfer}
+    return {"rule": "STV", "kw": kw, "profile": jp, "shape": {"n": n, "names": fam, "wfam": "tight", "planted": [sorted(S)], "nb": len(ballots), "tight": [k, q]},
+            "policies": common.gen_policies(rng, run_seed, kinds=("asc", "desc", "seeded")), "adv_seed": derive(run_seed, "adv") % 10**6}
+
+
 def generate(run_seed, tier):
     rng = stream(run_seed, "gen")
+    if rng.random() < 0.4:
+        return generate_tight(rng, run_seed)
     n = G.wchoice(rng, [(2, 1), (3, 3), (4, 4), (5, 4), (6, 2)])
     names, fam = G.gen_names(rng, n)
     transfer = G.wchoice(rng, [("fractional", 3), ("random", 2)])
